@@ -59,7 +59,8 @@ TReset ==
 
 TAdd ==
   /\ Is("add") /\ LockOK
-  /\ ProxyRegister(Ev.p, Ev.nat, Ev.load)
+  /\ Ev.nat = Eff(Ev.natwire)                       \* NAT type as decoded = as reported (absent means unknown)
+  /\ ProxyRegister(Ev.p, Ev.nat, Ev.loadwire)      \* the heap order is judged on the self-reported count
   /\ cnt' = (IF Ev.relayext THEN [cnt EXCEPT !.withRelay = @ + 1] ELSE [cnt EXCEPT !.withoutRelay = @ + 1])
   /\ pcnt' = Bump(pcnt, RelayKey(Ev.relayext, Ev.nat, Ev.ptype))
   /\ ips' = PutIn(ips, Ev.ptype, Ev.addr)
